@@ -609,7 +609,12 @@ func encodeScalar(b *ast.BasicLit) (any, error) {
 		}
 		switch {
 		case !info.IsDouble():
-			return rawScalar("!!binary " + base64.StdEncoding.EncodeToString([]byte(str))), nil
+			b64 := base64.StdEncoding.EncodeToString([]byte(str))
+			if b64 == "" {
+				// A tag without a scalar would apply to whichever node follows.
+				b64 = `""`
+			}
+			return rawScalar("!!binary " + b64), nil
 
 		case strings.Contains(str, "\n"):
 			if info.IsMulti() && blockLiteralSafe(str) {
